@@ -112,14 +112,21 @@ def run(ctx):
 
                 def part(e):
                     # split_at(lower, rfind(lower,'/')) -> .0 directory, .1 file name (sliced [1..])
+                    # rsplit_once(lower, '/')            -> .0 directory, .1 file name (separator already dropped)
                     k = None
                     for t in walk(e):
                         if isinstance(t, tuple) and t[0] == "fld" and isinstance(t[1], tuple) and t[1][0] == "call" and t[1][1].endswith("::split_at"):
                             k = t[2]
+                        if isinstance(t, tuple) and t[0] == "fld" and isinstance(t[2], int) and isinstance(t[1], tuple) and t[1][0] == "fld" and isinstance(t[1][1], tuple) and t[1][1][0] == "down":
+                            inner = t[1][1][1]
+                            if isinstance(inner, tuple) and inner[0] == "call" and inner[1].endswith("::rsplit_once") and any(is_const(a) and a[1] == 47 for a in inner[2]):
+                                k = t[2]
                     return k
 
-                last_sep = any(isinstance(t, tuple) and t[0] == "call" and t[1].endswith("::rfind") for t in walk(r)) and not any(isinstance(t, tuple) and t[0] == "call" and t[1].endswith("str>::find") for t in walk(r))
-                skip1 = any(isinstance(t, tuple) and t[0] == "agg" and "Range" in t[2] and is_const(N(t[3][0])) and N(t[3][0])[1] == 1 for t in walk(vals.get("name")))
+                has = lambda suffix, e: any(isinstance(t, tuple) and t[0] == "call" and t[1].endswith(suffix) for t in walk(e))
+                by_rsplit = has("::rsplit_once", r)
+                last_sep = (has("::rfind", r) or by_rsplit) and not has("str>::find", r) and not has("str>::split_once", r)
+                skip1 = by_rsplit or any(isinstance(t, tuple) and t[0] == "agg" and "Range" in t[2] and is_const(N(t[3][0])) and N(t[3][0])[1] == 1 for t in walk(vals.get("name")))
                 det = f"name <- split part {part(vals.get('name'))}, path <- split part {part(vals.get('path'))}, last separator {last_sep}, separator skipped {skip1}"
                 split_ok = part(vals.get("name")) == 1 and part(vals.get("path")) == 0 and last_sep and skip1
         ctx.ob("SPLIT", "index1-name-path", split_ok, f"index1 hash: {det}; name must hash the text after the last '/', path the text before it", hb.file, hb.line, sample=True)
@@ -132,6 +139,18 @@ def run(ctx):
             sel = [c for d, c in p.conds if isinstance(d, tuple) and d[0] == "discr" and any(isinstance(t, tuple) and t[0] == "fld" and t[2] == "index_type" for t in walk(d))]
             if sel and isinstance(r, tuple) and r[0] == "agg":
                 kinds[sel[0][1]] = r[2].split("::")[-1]
+            # `index_type == IndexType::X` (derived PartialEq against a constant variant)
+            for d, c in p.conds:
+                if isinstance(d, tuple) and d[0] == "call" and "IndexType as std::cmp::PartialEq>::" in d[1] and isinstance(r, tuple) and r[0] == "agg":
+                    kb = [a for a in d[2] if isinstance(a, tuple) and a[0] == "kb" and "IndexType" in a[2]]
+                    if kb and any(isinstance(t, tuple) and t[0] == "fld" and t[2] == "index_type" for a in d[2] for t in walk(a)):
+                        cv = int.from_bytes(bytes.fromhex(kb[0][1]), "little")
+                        is_eq = d[1].endswith("::eq")
+                        holds = (c[0] == "ne" and 0 in c[1]) or (c[0] == "eq" and c[1] == 1)
+                        all_v = [int(v["discr"]) for v in prog.adts["sqpack::index::IndexType"]["variants"]]
+                        vs = [cv] if holds == is_eq else [v for v in all_v if v != cv]
+                        for v in vs:
+                            kinds[v] = r[2].split("::")[-1]
         it_vals = {v["name"]: int(v["discr"]) for v in prog.adts["sqpack::index::IndexType"]["variants"]}
         ctx.ob("SPLIT", "hash-kind-per-index-type", kinds.get(it_vals.get("Index1")) == "SplitPath" and kinds.get(it_vals.get("Index2")) == "FullPath", f"hash kind by index type: {kinds} (Index1={it_vals.get('Index1')}, Index2={it_vals.get('Index2')})", hb.file, hb.line)
 
@@ -156,20 +175,32 @@ def run(ctx):
                 """(mask, shift, scale) of ((w & M) >> S) * K (missing parts: None / 0 / 1); w = the u32 that was read."""
                 mask, shift, scale = None, 0, 1
                 cur = e
-                if isinstance(cur, tuple) and cur[0] == "bin" and cur[1] == "Eq":
+                ne_zero = False
+                if isinstance(cur, tuple) and cur[0] == "bin" and cur[1] in ("Eq", "Ne"):
                     sides = [cur[2], cur[3]]
                     k = [s for s in sides if is_const(s)]
-                    cur = [s for s in sides if not is_const(s)][0] if k and len(k) == 1 else cur
-                    scale = ("eq", k[0][1]) if k else scale
+                    if k and len(k) == 1 and (cur[1] == "Eq" or k[0][1] == 0):
+                        ne_zero = cur[1] == "Ne"
+                        cur = [s for s in sides if not is_const(s)][0]
+                        scale = ("eq", k[0][1])
                 if isinstance(cur, tuple) and cur[0] == "bin" and cur[1] in ("Mul", "WMul"):
                     k = [s for s in (cur[2], cur[3]) if is_const(s)]
                     if k:
                         scale = k[0][1]
                         cur = cur[3] if cur[2] == k[0] else cur[2]
+                post_mask = None
+                if isinstance(cur, tuple) and cur[0] == "bin" and cur[1] == "BitAnd" and any(isinstance(x, tuple) and x[0] == "bin" and x[1] == "Shr" for x in (cur[2], cur[3])):
+                    # (w >> s) & m   ==   (w & (m << s)) >> s
+                    k = [x for x in (cur[2], cur[3]) if is_const(x)]
+                    if k:
+                        post_mask = k[0][1]
+                        cur = cur[3] if cur[2] == k[0] else cur[2]
                 if isinstance(cur, tuple) and cur[0] == "bin" and cur[1] == "Shr" and is_const(cur[3]):
                     shift = cur[3][1]
                     cur = cur[2]
-                if isinstance(cur, tuple) and cur[0] == "bin" and cur[1] == "BitAnd":
+                if post_mask is not None:
+                    mask = (post_mask << shift) & 0xFFFFFFFF
+                if mask is None and isinstance(cur, tuple) and cur[0] == "bin" and cur[1] == "BitAnd":
                     k = [s for s in (cur[2], cur[3]) if is_const(s)]
                     if k:
                         mask = k[0][1] & 0xFFFFFFFF
@@ -180,6 +211,8 @@ def run(ctx):
                             mask = (~nk[0][2][1]) & 0xFFFFFFFF
                             cur = cur[3] if cur[2] == nk[0] else cur[2]
                 is_word = any(isinstance(t, tuple) and t[0] == "call" and "read_options" in t[1] for t in walk(cur))
+                if ne_zero and mask is not None and mask & (mask - 1) == 0 and shift == 0:
+                    scale = ("eq", mask)  # (w & single bit) != 0  ==  (w & bit) == bit
                 return (mask, shift, scale, is_word)
 
             want = {"is_synonym": (1, 0, ("eq", 1), True), "data_file_id": (0b1110, 1, 1, True), "offset": (0xFFFFFFF0, 0, 8, True)}
@@ -301,16 +334,41 @@ def run(ctx):
     else:
         n_cmp = 0
         seen = set()
-        for p in Explorer(pb).explore():
-            for (bb, callee, args, _res) in p.events:
-                if "PartialEq" in callee and callee.split("::")[-1] in ("eq", "ne") and len(args) == 2 and bb not in seen:
-                    name_side = [a for a in args if any(isinstance(t, tuple) and t[0] == "fld" and t[2] == "name" for t in walk(a))]
-                    other = [a for a in args if a not in name_side]
-                    if name_side and other:
-                        seen.add(bb)
-                        n_cmp += 1
-                        sh = shape(other[0])
-                        ctx.ob("REPO", "token-shape", sh not in ("suffix", "whole"), f"repository name is compared with {show(other[0])[:110]}, which is the {sh} of the path; it must be a single component", pb.file, pb.line, sample=True)
+        ppaths = Explorer(pb).explore()
+        # closures built in the function (e.g. the predicate of iter().find()): name -> captured expressions
+        captures = {}
+        for p in ppaths:
+            for (_bb, _callee, args, _res) in p.events:
+                for a in args:
+                    for t in walk(a):
+                        if isinstance(t, tuple) and t[0] == "agg" and t[1] == "closure":
+                            captures.setdefault(t[2], t[3])
+
+        def subst(e, caps):
+            """Expression of a closure body with its captured variables replaced by what the parent captured."""
+            if isinstance(e, tuple):
+                if e[0] == "fld" and isinstance(e[2], int) and isinstance(e[1], tuple):
+                    base = e[1]
+                    while isinstance(base, tuple) and base[0] in ("deref", "ref"):
+                        base = base[1]
+                    if base == ("p", 1) and e[2] < len(caps):
+                        return caps[e[2]]
+                return tuple(subst(x, caps) for x in e)
+            return e
+
+        bodies_ = [(pb, ppaths, None)] + [(cb, Explorer(cb).explore(), captures.get(cb.name)) for cb in prog.closures_of(pb.name) if cb.name in captures]
+        for body_, paths_, caps in bodies_:
+            for p in paths_:
+                for (bb, callee, args, _res) in p.events:
+                    if "PartialEq" in callee and callee.split("::")[-1] in ("eq", "ne") and len(args) == 2 and (body_.name, bb) not in seen:
+                        name_side = [a for a in args if any(isinstance(t, tuple) and t[0] == "fld" and t[2] == "name" for t in walk(a))]
+                        other = [a for a in args if a not in name_side]
+                        if name_side and other:
+                            seen.add((body_.name, bb))
+                            n_cmp += 1
+                            o = subst(other[0], caps) if caps is not None else other[0]
+                            sh = shape(o)
+                            ctx.ob("REPO", "token-shape", sh not in ("suffix", "whole"), f"repository name is compared with {show(o)[:110]}, which is the {sh} of the path; it must be a single component", pb.file, pb.line, sample=True)
         ctx.floor("REPO", "repository-name comparisons", n_cmp, 1)
         # category token = first component, fallback to repositories[0]
         cat_ok = False
@@ -349,12 +407,13 @@ def run(ctx):
     fb = prog.body("sqpack::index::SqPackIndex::find_entry")
     if fb:
         ok = False
-        for _bi, _si, s in fb.stmts():
-            rv = s.get("rv", {})
-            if rv.get("k") == "agg" and rv.get("adt") == "sqpack::index::IndexEntry":
-                ix = index_of(fb)
-                ops = dict(zip(rv["fields"], rv["ops"]))
-                ok = "data_file_id" in derive(ix, ops["data_file_id"]).names and "offset" in derive(ix, ops["offset"]).names and "offset" not in derive(ix, ops["data_file_id"]).names
+        for body_ in [fb] + prog.closures_of(fb.name):
+            for _bi, _si, s in body_.stmts():
+                rv = s.get("rv", {})
+                if rv.get("k") == "agg" and rv.get("adt") == "sqpack::index::IndexEntry":
+                    ix = index_of(body_)
+                    ops = dict(zip(rv["fields"], rv["ops"]))
+                    ok = "data_file_id" in derive(ix, ops["data_file_id"]).names and "offset" in derive(ix, ops["offset"]).names and "offset" not in derive(ix, ops["data_file_id"]).names
         ctx.ob("PROV", "find_entry|copy", ok, "IndexEntry{data_file_id, offset} copies entry.data.data_file_id and entry.data.offset (not swapped)", fb.file, fb.line)
         cmp_ok = False
         for c in prog.closures_of("sqpack::index::SqPackIndex::find_entry") + prog.closures_of("sqpack::index::SqPackIndex::exists"):
